@@ -8,6 +8,7 @@ CONSTANTS
   UseUntil = TRUE
   PreStarted = FALSE
   FixedStopOrder = 0
+  ResetInRun = FALSE
 SPECIFICATION CSpec
 POSTCONDITION Report
 CHECK_DEADLOCK FALSE
